@@ -76,7 +76,7 @@ int runCases(const Opts& o, CaseFn fn);
 
 // ---- hook state (see /repo include/ezc3d.h, guard MELUND_EZC3D_VERIF) ----
 struct HookState {
-    unsigned long reads, readBytes, readsAfterFail, sites[32];
+    unsigned long reads, readBytes, readsAfterFail, loopEntries, maxLoopEntries, sites[32];
     int section;            // last LOAD/SAVE site seen
     // budgets (0 = off)
     unsigned long maxReads, maxReadsAfterFail;
